@@ -49,13 +49,14 @@ def parseAct (a th : Nat) (name detail : String) : Option Act :=
            some (.txnPinned t mode (natOf tb))
        | _ => none)
   | "txn.locked" => some (.txnLocked t)
+  | "txn.lock.begin" => some (.lockBegin t)
   | "vm.commit.begin" => some (.commitBegin t)
   | "vm.commitA" => some (.commitA t)
   | "vm.append" => some (.append t)
   | "vm.committed" => some (.committed t)
   | "ddl.create.applied" => some (.createApplied t)
   | "ddl.drop.applied" => some (.dropApplied t)
-  | "cp.pinned" => some (.cpPinned t)
+  | "cp.pass.begin" => some (.cpPinned t)
   | "cp.table" => some (.cpTable t (natOf detail))
   | "cp.locked" => some (.cpLocked t (natOf detail))
   | "cp.pass.end" => some (.cpEnd t)
@@ -170,13 +171,14 @@ def renderEv (before after : Sys) (a : Act) : String :=
   | .unpin _ e => "vm.unpin " ++ toString e
   | .txnPinned _ _ _ => "txn.pinned"
   | .txnLocked _ => "txn.locked"
+  | .lockBegin _ => "txn.lock.begin"
   | .commitBegin th => "vm.commit.begin " ++ opsStr (getTh after th).ops
   | .commitA _ => "vm.commitA " ++ toString before.k.epoch
   | .append _ => "vm.append"
   | .committed _ => "vm.committed"
   | .createApplied _ => "ddl.create.applied"
   | .dropApplied _ => "ddl.drop.applied"
-  | .cpPinned _ => "cp.pinned"
+  | .cpPinned _ => "cp.pass.begin"
   | .cpTable _ t => "cp.table " ++ toString t
   | .cpLocked _ t => "cp.locked " ++ toString t
   | .cpEnd _ => "cp.pass.end"
